@@ -291,6 +291,47 @@ def derived_operand(ctx, src, op, tsize=1):
     return ctx.done(ok, [list(b.dims), [ax.values.tolist() for ax in b.axes]])
 
 
+def serialise(ctx, how, shape):
+    """serialisation and conversion of an array whose metadata holds mutable values with NumPy scalars / arrays nested inside:
+    the array - values, labels, and the metadata down to the types of the nested items - is left as it was"""
+    ctx.c15_mode = True
+    da = ctx.da
+    nd = len(shape)
+    dims = ['x', 'y'][:nd]
+    labels = [ctx.labels(k, n, 'l%s_' % d) for d, n, k in zip(dims, shape, ['i', 'U'])]
+    ncell = 1
+    for n in shape:
+        ncell *= n
+    a = ctx.mk(dims, labels, ctx.cells('f', ncell, 'v'), lkinds=['i', 'U'][:nd])
+    if how == 'to_json':
+        f = lambda: a.to_json()
+    elif how == 'to_json-indent':
+        f = lambda: a.to_json(indent=2)
+    elif how == 'to_jsondict':
+        f = lambda: a.to_jsondict()
+    elif how == 'roundtrip':
+        f = lambda: da.DimArray.from_json(a.to_json())
+    elif how == 'repr':
+        f = lambda: repr(a)
+    elif how == 'str-summary':
+        f = lambda: (str(a), a.summary_repr() if hasattr(a, 'summary_repr') else None)
+    elif how == 'to_dataset':
+        f = lambda: a.to_dataset(axis=0) if hasattr(a, 'to_dataset') else None
+    elif how == 'to_list':
+        f = lambda: (a.to_list() if hasattr(a, 'to_list') else None, a.tolist() if hasattr(a, 'tolist') else None)
+    elif how == 'copy':
+        f = lambda: a.copy()
+    elif how == 'in-dataset-to_dict':
+        def f():
+            ds = da.Dataset()
+            ds['v'] = a
+            return ds.to_dict() if hasattr(ds, 'to_dict') else None
+    else:
+        raise ValueError(how)
+    ctx.call(f)        # what comes out (or whether json can encode symbolic cells at all) is C19's business
+    return ctx.done(True, None)
+
+
 def templates():
     ts = []
 
@@ -312,6 +353,9 @@ def templates():
                 if tsize == 2 and op in ('reshape', 'squeeze', 'repeat'):
                     continue
                 add('derived-%s-%s-t%d' % (src, op, tsize), 'derived_operand', cost=0.4, src=src, op=op, tsize=tsize)
+    for how in ('to_json', 'to_json-indent', 'to_jsondict', 'roundtrip', 'repr', 'str-summary', 'to_dataset', 'to_list', 'copy', 'in-dataset-to_dict'):
+        for shape in ([2], [2, 2]):
+            add('serialise-%s-%s' % (how, 'x'.join(map(str, shape))), 'serialise', cost=0.3, how=how, shape=shape)
     for ctor in ('setitem', 'ctor', 'kwargs'):
         for op in ('set_axis', 'rename_axes', 'axis-item', 'axes-setitem', 'copy-set_axis', 'set_axis-notinplace', 'rename_axes-notinplace', 'rename_keys-notinplace'):
             add('dataset-%s-%s' % (ctor, op), 'dataset_aliasing', cost=0.5, how='%s-%s' % (ctor, op))
